@@ -45,7 +45,9 @@ def optimize : Sx → Sx
       | [] => .list true (.op .IF :: args')
     | .DO =>
       if !w then .list w (.op o :: args) else
-      -- the code computes optimize(optimize a) for the single-body case; equal by `optimize_idem` (Props/C16)
+      -- the code computes optimize(optimize a) for the single-body case. The second pass changes nothing unless the
+      -- first one turned a *head position* into an operator (`((do if) 1 2 3)`, see Props/C16 `second_pass_witness`):
+      -- such forms fail at run time (an operator is not a value), so the difference is outside every property
       match optList args with
       | [a'] => a'
       | args' => .list true (.op .DO :: args')
